@@ -214,7 +214,7 @@ def rand_scenario(
         "place": place,
         "bs_kind": rng.choice(["sync", "async", "lambda"] if exotic_callables else ["sync", "async"]),
         "sleeper_kind": rng.choice(["async", "sync", "lambda", "callable", "falsy"] if exotic_callables else ["async", "async", "sync"]),
-        "timeline": rng.choice([False, True, "obj"]),
+        "timeline": rng.choice([False, True, "obj", "objshared"]),
         "via_config": bool(p_via_config and rng.random() < p_via_config),
         "via_attrs": bool(p_via_attrs and rng.random() < p_via_attrs),  # configured by assigning public attributes after construction
         "poll_kind": rng.choice(["bool", "int", "str", "obj"]) if poll_kinds else "bool",
